@@ -773,6 +773,12 @@ def rule_lk1(ctx, rels, scope=None):
                                 src = None   # typed like an inexact result
                         elif dt is not None and dotted(dt) in loose_dtypes:
                             src = f"<{dotted(dt)} from check_type>"
+                        elif dt is not None and dotted(dt) in (
+                                "self.dtype", "self._dtype"):
+                            # typed like the object's summary dtype: word
+                            # values (inverse letters of integer
+                            # generators) can be wider
+                            src = "<self.dtype>"
                         if src is not None:
                             bufs[n.targets[0].id] = (n, src, exact_ok,
                                                      lit_dtype)
